@@ -171,6 +171,9 @@ func c18RunOne(r *vfRun, sim *vfSim, alloc bool) *c18Outcome {
 	rr := &vfRun{sc: sc, sim: sim, t: r.t, res: r.res}
 	var comp *vfSession
 	if sc.cfg("companion", 0) != 0 {
+		// both servers are configured from the same option values (an option list built once, used for every connection)
+		vfShareOpts = true
+		defer func() { vfShareOpts = false }()
 		csc := &vfScenario{Prop: sc.Prop, Class: sc.Class, Seed: sc.Seed ^ 0x77, Cfg: map[string]int64{"kind": sc.cfg("kind", 0), "alloc": 1, "sites": sc.cfg("sites", 3), "hopt": 1}}
 		name := "/f0"
 		if csc.Cfg["kind"] == 0 {
